@@ -57,7 +57,7 @@ def _helper_summary(repo, qual, skip):
         if not (fi.parent is not None or fi.node.decorator_list or a.vararg or a.kwarg
                 or any(isinstance(n, (ast.Yield, ast.YieldFrom, ast.Await)) for n in ast.walk(fi.node))):
             fa = FuncAnalysis(repo, fi, versioned=False)
-            rets, ok = [], True
+            rets, ok, inner = [], True, []
             for e in fa.events:
                 if e.d.get('in_lambda') or e.d.get('in_comp'):
                     continue
@@ -66,6 +66,8 @@ def _helper_summary(repo, qual, skip):
                 elif e.kind in ('raise', 'yield', 'yield_from', 'store_sub', 'store_attr', 'aug_sub', 'aug_attr', 'del', 'delattr',
                                 'store_global', 'store_nonlocal', 'break', 'continue', 'with', 'assert') or (e.kind == 'call' and e.stmt):
                     ok = False
+                elif e.kind == 'call':
+                    inner.append((e.term, e.f, e.args, e.kws, [(c if pol else T.not_(c)) for c, pol in e.guards]))
                 if e.loops:
                     ok = False
             if ok and rets and not fa.unrecognised:
@@ -94,7 +96,7 @@ def _helper_summary(repo, qual, skip):
                             dterms[arg.arg] = T.C(ast.literal_eval(d))
                         except (ValueError, SyntaxError, TypeError):
                             dterms[arg.arg] = None
-                    out = (params, kwonly, dterms, acc)
+                    out = (params, kwonly, dterms, acc, inner)
     except Exception:       # the helper cannot be summarised: keep the call
         out = None
     finally:
@@ -940,6 +942,8 @@ class FuncAnalysis:
 
     def _s_For(self, s):
         it = self.ev(s.iter)
+        if it[0] == 'call' and it[1][0] == 'attr' and it[1][2] == 'keys' and not it[2] and not it[3]:
+            it = it[1][1]           # iterating a mapping is iterating its keys
         li = self._new_loop(s, 'for', it)
         self._emit('loop', s, loop=li.id, iter=it)
 
@@ -1338,7 +1342,7 @@ class FuncAnalysis:
         return ('comp', 'dict', ('kv', k, v), gens)
 
     # -- helpers the checker has never heard of ------------------------------------------------
-    def _inline_unknown_helper(self, f, args, kws):
+    def _inline_unknown_helper(self, f, args, kws, node=None):
         """A call of a package-local, effect-free function (module function, method of the same class
         through self, or functools.partial of one) whose name no rule or reference mentions is replaced
         by the value it returns: extracting an expression into a new helper does not change the terms."""
@@ -1356,7 +1360,7 @@ class FuncAnalysis:
         sm = _helper_summary(repo, q, skip)
         if sm is None:
             return None
-        params, kwonly, dterms, body = sm
+        params, kwonly, dterms, body, inner_calls = sm
         args = pre + list(args)
         if any(a[0] == 'star' for a in args) or any(k[0] != 'kw' for k in kws) or len(args) > len(params):
             return None
@@ -1370,7 +1374,18 @@ class FuncAnalysis:
                 if dterms.get(p) is None:
                     return None
                 bound[p] = dterms[p]
-        return T.subst(body, {T.V(k): v for k, v in bound.items()})
+        m = {T.V(k): v for k, v in bound.items()}
+        # the calls the helper makes are calls of the caller (under the helper's conditions): rules
+        # that look for a constructor or reader call still find it
+        for term, cf_, cargs, ckws, guards in inner_calls:
+            gs = [T.subst(g, m) for g in guards]
+            for g in gs:
+                self._guards.append((g, True, 'if'))
+            self._emit('call', node, term=T.subst(term, m), f=T.subst(cf_, m), args=tuple(T.subst(a, m) for a in cargs),
+                       kws=tuple(T.subst(k, m) for k in ckws), stmt=False)
+            for _ in gs:
+                self._guards.pop()
+        return T.subst(body, m)
 
     def _transplant_validation_helper(self, node, f, args, kws):
         """`_check_x(a, b)` as a statement, where _check_x is a helper unknown to the checker that only
@@ -1481,7 +1496,7 @@ class FuncAnalysis:
                 kws.append(T.kw(k.arg, self.ev(k.value)))
         args, kws = self._canon_args(f, args, kws)
         if not stmt:
-            inl = self._inline_unknown_helper(f, args, kws)
+            inl = self._inline_unknown_helper(f, args, kws, n)
             if inl is not None:
                 return inl
         elif self._transplant_validation_helper(n, f, args, kws):
